@@ -4,15 +4,16 @@ import Model.LoaderArpa
 import Model.LoaderBin
 /-! Driver for stream `loader-fuzz` (C10): the verdict of the loader models on a file.
 
-  `arpa <path>`
+  `arpa <path> [multiplier float32 bits, default 1.5] [building_memory, default 1 GB]`
       → `arpa P=<ok|error:<class>> T=<ok|error:<class>> parse=<ok|error:<class>> maxcount=<n|-> finite=<0|1>
               strict=<ok|error:<class>> same=<0|1|-> ctx=<0|1|-> distinct=<0|1|->`
         P / T: `KV.LoaderArpa.load` for the probing / trie family (multiplier 1.5);
         strict: `KV.Arpa.parse` (the C01 grammar); same: both accept and produce the same `Arpa`.
   `bin <path> <P|R|T|A|Q|B> <enum 0|1> <need|-> <order> <multbits> <c1,c2,…>`
       → `bin <ok|arpa|error:<class>|ub|unknown-size> order=<o> type=<t>`
-        `need` = header + Size of the pristine file; it is the model's `size` for exactly the pristine
-        (order, multiplier, counts) and unknown for any other parameters.
+        the model's `size` is `KV.LoaderBin.layoutSize` (C04's `modelSize` on the stored parameters); `need` = header +
+        Size of the pristine file as observed by the generator is only used for a self check (` layout-mismatch=`
+        is appended when the layout model disagrees with the real file it was written from).
 -/
 open KV KV.Proto
 
@@ -35,10 +36,19 @@ def hugeExponent : List UInt8 → Bool
       if (r1.takeWhile KV.Arpa.isDigit).length ≥ 5 then true else hugeExponent r
     else hugeExponent r
 
-def arpaLine (maxOrder : Nat) (bytes : List UInt8) : String :=
-  let p := KV.LoaderArpa.parse maxOrder true bytes
-  let vP := KV.LoaderArpa.load .probing maxOrder true KV.LoaderArpa.buckets15 bytes
-  let vT := KV.LoaderArpa.load .trie maxOrder true KV.LoaderArpa.buckets15 bytes
+def arpaLine (maxOrder : Nat) (bytes : List UInt8) (multBits : Nat) (mem : Nat) : String :=
+  -- `config.probing_multiplier <= 1.0` ⇒ ConfigException; bucket counts by C04's float32 model of ProbingHashTable::Size
+  let multOk := decide (multBits > KV.Gen.C10.bitsOneF) && decide (multBits < 2 ^ 31)
+  let buckets : Nat → Nat := KV.Binary.probingBuckets multBits
+  let p := KV.LoaderArpa.parse maxOrder multOk bytes
+  let vP := KV.LoaderArpa.load .probing maxOrder multOk buckets bytes mem
+  let vT := KV.LoaderArpa.load .trie maxOrder multOk buckets bytes mem
+  let big := match p with
+    | .ok lp => decide (lp.entries.length > 6000)
+    | .error _ => decide (bytes.length > 400000)
+  let batches := match p with
+    | .ok lp => ",".intercalate ((KV.LoaderArpa.trieBatches lp mem).map toString)
+    | .error _ => "-"
   -- the counts the loader would size its tables with (reported even when parsing fails later)
   let maxcount : String :=
     match KV.Arpa.skipLines (fun l => KV.Arpa.allSpace l || l.take 1 == [35]) (bytes.length + 1) bytes with
@@ -48,9 +58,10 @@ def arpaLine (maxOrder : Nat) (bytes : List UInt8) : String :=
       | .ok (cs, _) => toString (cs.foldl max 0)
       | .error _ => "-"
     | none => "-"
+  -- the C01 grammar and the quadratic flags are only evaluated on files of ordinary size
   let strict : Except KV.Arpa.Err KV.Arpa.Parsed :=
-    if hugeExponent bytes then .error .parse else KV.Arpa.parse maxOrder (-100) bytes
-  let strictS := if hugeExponent bytes then "skipped" else match strict with
+    if hugeExponent bytes || big then .error .parse else KV.Arpa.parse maxOrder (-100) bytes
+  let strictS := if hugeExponent bytes || big then "skipped" else match strict with
     | .ok _ => "ok"
     | .error e => "error:" ++ e.name
   -- float32 flushes |q| ≤ 2⁻¹⁵⁰ to zero: the C01 grammar keeps such a probability exact, the loader model stores 0
@@ -60,6 +71,7 @@ def arpaLine (maxOrder : Nat) (bytes : List UInt8) : String :=
     match p with
     | .error _ => ("-", "-", "-", "-")
     | .ok lp =>
+      if big then (b2s lp.finite, "-", "-", "-") else
       let a := lp.toArpa (-100)
       let sm := match strict with
         | .ok sp => b2s (lp.finite && sp.arpa.order == a.order && sp.arpa.entries.map flushE == a.entries.map flushE &&
@@ -68,8 +80,13 @@ def arpaLine (maxOrder : Nat) (bytes : List UInt8) : String :=
       -- distinct: no n-gram twice AND no vocabulary word twice (a repeated unigram word gets two ids; which one
       -- `Index` returns is the data structure's business, so the L0 oracle does not apply)
       (b2s lp.finite, sm, b2s a.contextsPresent, b2s (a.keysDistinct && lp.vocab.eraseDups.length == lp.vocab.length))
-  "arpa P=" ++ verdictStr vP ++ " T=" ++ verdictStr vT ++ " parse=" ++ verdictStr p ++ " maxcount=" ++ maxcount ++
-    " finite=" ++ finite ++ " strict=" ++ strictS ++ " same=" ++ same ++ " ctx=" ++ ctx ++ " distinct=" ++ distinct
+  -- the file has no `<unk>` unigram but some n-gram of order ≥ 2 contains `<unk>` (known finding: the probing classes then
+  -- overwrite the hallucinated unigram's "extends left" mark and never find those n-grams)
+  let unkngram := match p with
+    | .ok lp => b2s (!lp.sawUnk && lp.entries.any fun e => decide (e.1.length ≥ 2) && e.1.contains 0)
+    | .error _ => "-"
+  "arpa unkngram=" ++ unkngram ++ " P=" ++ verdictStr vP ++ " T=" ++ verdictStr vT ++ " parse=" ++ verdictStr p ++ " maxcount=" ++ maxcount ++
+    " finite=" ++ finite ++ " strict=" ++ strictS ++ " same=" ++ same ++ " ctx=" ++ ctx ++ " distinct=" ++ distinct ++ " batches=" ++ batches
 
 open KV.LoaderBin KV.Gen.C10 in
 def requestOf (cls : String) (enumerate : Bool) : Request :=
@@ -84,10 +101,23 @@ def requestOf (cls : String) (enumerate : Bool) : Request :=
 open KV.LoaderBin KV.Gen.C10 in
 def binLine (file : List Nat) (cls : String) (enumerate : Bool) (need : Option Nat) (porder pmult : Nat) (pcounts : List Nat) : String :=
   let req := requestOf cls enumerate
-  let size : Params → Option Nat := fun p =>
+  let kind : KV.Binary.Kind := match cls with
+    | "P" => .probing false
+    | "R" => .probing true
+    | "T" => .trie false false
+    | "Q" => .trie true false
+    | "A" => .trie false true
+    | _ => .trie true true
+  -- C04's layout arithmetic on the STORED parameters; cross-checked against the pristine file's size when the
+  -- parameters are the pristine ones (`need` = header + Size observed by the generator)
+  let size : Params → SizeR := fun p => layoutSize kind file p
+  let selfCheck : String :=
     match need with
-    | none => none
-    | some n => if p.fixed.order == porder && p.fixed.multBits == pmult && p.counts == pcounts then some (n - headerSize porder) else none
+    | some n =>
+      match size { fixed := { order := porder, multBits := pmult, modelType := req.modelType, hasVocab := true, searchVersion := req.searchVersion }, counts := pcounts } with
+      | .known sz => if headerSize porder + sz == n then "" else " layout-mismatch=" ++ toString (headerSize porder + sz) ++ "/" ++ toString n
+      | _ => ""
+    | none => ""
   let bound : Params → Nat := fun p =>
     let body := file.drop (headerSize p.fixed.order)
     if req.usesMultiplier then ofLe ((body.drop offVocabHeaderBound).take sizeofVocabBound)
@@ -100,18 +130,29 @@ def binLine (file : List Nat) (cls : String) (enumerate : Bool) (need : Option N
     | .error .eof => "error:eof"
     | .ub => "ub"
     | .unknownSize => "unknown-size"
+  -- sizeok=1: the stored parameters pass `LoadBinary`'s size check (and the vocabulary-header version check), i.e. the body
+  -- WILL be mapped and used with the layout they imply, whatever the later `<unk>` check says
   let info := match recognize file with
-    | .header f => " order=" ++ toString f.order ++ " type=" ++ toString f.modelType
+    | .header f =>
+      let sizeok := match readCounts f.order (file.drop (sizeofSanity + sizeofFixed)) with
+        | some cs =>
+          (match size { fixed := f, counts := cs } with
+           | .known sz => decide (headerSize f.order + sz ≤ file.length) && !probingVocabVersionBad req.usesMultiplier file f.order
+           | _ => false)
+        | none => false
+      " order=" ++ toString f.order ++ " type=" ++ toString f.modelType ++ " sizeok=" ++ b2s sizeok
     | _ => ""
-  "bin " ++ s ++ info
+  "bin " ++ s ++ info ++ selfCheck
 
 partial def mainLoop (maxOrder : Nat) (h : IO.FS.Stream) : IO Unit := do
   let line ← h.getLine
   if line.isEmpty then return ()
   match words line with
-  | ["arpa", path] =>
+  | "arpa" :: path :: rest =>
     let bytes ← IO.FS.readBinFile path
-    IO.println (arpaLine maxOrder bytes.toList)
+    let multBits := (rest.head? >>= String.toNat?).getD 1069547520        -- 1.5f
+    let mem := ((rest.drop 1).head? >>= String.toNat?).getD 1073741824     -- config.building_memory default (1 GB)
+    IO.println (arpaLine maxOrder bytes.toList multBits mem)
     mainLoop maxOrder h
   | ["bin", path, cls, en, need, porder, pmult, pcounts] =>
     let bytes ← IO.FS.readBinFile path
